@@ -133,6 +133,8 @@ def stepOp (s : St) (f : List String) : Step :=
   | some "drop" => ⟨s.dropTx (num 1), ["ok"]⟩
   | some "dbcheck" => ⟨s, ["ok"]⟩
   | some "file" => ⟨s, []⟩
+  | some "snap" => ⟨s, ["ok"]⟩
+  | some "usefile" => ⟨{ s with txs := [], handles := [] }, ["ok"]⟩
   | some "flstate" => ⟨s, []⟩
   | some "readers" => ⟨s, []⟩
   | some "tree" => ⟨s, []⟩
